@@ -71,6 +71,16 @@ func satAdd(a, b uint64) uint64 {
 	return a + b
 }
 
+// otherKeyLog is the first configured log whose key is not ld's (nil if every log uses ld's key).
+func (w *World) otherKeyLog(ld *LogDef) *LogDef {
+	for _, o := range w.Logs {
+		if o.KeyIdx != ld.KeyIdx {
+			return o
+		}
+	}
+	return nil
+}
+
 // resolveUpdate turns a symbolic update into bytes, against the harness's view
 // of the *same log's* stored state and the static world only.
 func resolveUpdate(w *World, op Op, st Stored) *Request {
@@ -166,6 +176,18 @@ func resolveUpdate(w *World, op Op, st Stored) *Request {
 	case "origin_prefix":
 		origin = ld.Origin + "x"
 		r.SigValid = 0
+	case "origin_ws":
+		// the configured origin up to surrounding white space - a different origin, correctly signed with this log's key
+		ws := []string{" ", "\t", "\u00a0", "\r", "\u2003", "\ufeff", "  ", "\u3000"}[op.MV%8]
+		switch op.MV / 8 % 3 {
+		case 0:
+			origin = ld.Origin + ws
+		case 1:
+			origin = ws + ld.Origin
+		default:
+			origin = ws + ld.Origin + ws
+		}
+		r.SigValid = 0
 	case "origin_case":
 		origin = strings.ToUpper(ld.Origin)
 		if origin == ld.Origin {
@@ -205,8 +227,22 @@ func resolveUpdate(w *World, op Op, st Stored) *Request {
 		lines = append(lines, k.SignEd25519(r.Text))
 		r.SigValid = 0
 	case "forgedhash":
-		// stranger's signature carrying the log key's name and key hash
-		lines = append(lines, sigLine(ld.Key.Name, ld.Key.KeyHash(algEd25519), ed25519.Sign(w.Stranger.Priv, []byte(r.Text))))
+		// a signature by another key - another configured log's if there is a different one and MV is even, else a stranger's -
+		// carrying this log key's name and key hash
+		priv := w.Stranger.Priv
+		if ol := w.otherKeyLog(ld); ol != nil && op.MV%2 == 0 {
+			priv = ol.Key.Priv
+		}
+		lines = append(lines, sigLine(ld.Key.Name, ld.Key.KeyHash(algEd25519), ed25519.Sign(priv, []byte(r.Text))))
+		r.SigValid = 0
+	case "prime_other":
+		// this log's next text, genuinely signed by ANOTHER configured log's key under that key's own name (and, below, submitted
+		// under that other log's ID): refused there for its origin; it must not make the same signature bytes pass anywhere else
+		if ol := w.otherKeyLog(ld); ol != nil {
+			lines = append(lines, ol.Key.SignEd25519(r.Text))
+		} else {
+			lines = append(lines, w.Stranger.SignEd25519(r.Text))
+		}
 		r.SigValid = 0
 	case "nosig":
 		r.SigValid = 0
@@ -288,6 +324,10 @@ func resolveUpdate(w *World, op Op, st Stored) *Request {
 			r.LogID = ld.ID[:len(ld.ID)-1] // near miss
 		} else if op.MV%3 == 2 {
 			r.LogID = ""
+		}
+	case "prime_other":
+		if ol := w.otherKeyLog(ld); ol != nil {
+			r.LogID, r.LogIdx = ol.ID, ol.Idx
 		}
 	case "crosslog":
 		// this log's valid checkpoint submitted under another configured log's ID
@@ -401,6 +441,15 @@ func resolveUpdate(w *World, op Op, st Stored) *Request {
 		for i := 0; i < n; i++ {
 			r.Proof = append(r.Proof, pr.Bytes(32))
 		}
+	case "prepend_old_root":
+		// the correct proof with the stored root put in front (what a proof builder that "always leads with the old root" sends)
+		r.Proof = append([][]byte{append([]byte{}, st.Root...)}, honest(tree, from, r.Size)...)
+	case "append_new_root":
+		r.Proof = append(honest(tree, from, r.Size), append([]byte{}, r.Root...))
+	case "prepend_new_root":
+		r.Proof = append([][]byte{append([]byte{}, r.Root...)}, honest(tree, from, r.Size)...)
+	case "append_old_root":
+		r.Proof = append(honest(tree, from, r.Size), append([]byte{}, st.Root...))
 	case "roots":
 		// the two roots themselves as "proof"
 		r.Proof = [][]byte{append([]byte{}, st.Root...), append([]byte{}, r.Root...)}
